@@ -857,6 +857,12 @@ func checkRecursion(c *Ctx, cone []*ssa.Function) {
 		// needs a depth counter: balanced, guarded, and held across every cycle (recursion.go)
 		if ok, w := p.checkDepthCounter(comp); ok {
 			c.OK("R4", site, comp[0].Pos(), "input-consuming recursion bounded: "+w)
+			// the limit that is enforced is the limit that is named: with the guard `counter >= K` in front of the
+			// increment exactly K nested levels are accepted; the same test behind the increment accepts one fewer -
+			// a value the encoder emits and the decoder used to accept is then refused
+			if acc, k, at, found := depthLimitAccepted(comp); found {
+				c.Check(acc == k, "R4", site+" accepts exactly the named depth", at, fmt.Sprintf("%d nested levels are accepted, the constant of the guard is %d", acc, k), fmt.Sprintf("the depth guard accepts %d nested levels although it is written against the constant %d: values nested exactly %d deep - which the encoder emits and a peer may legitimately send - are refused (or one level too many is accepted)", acc, k, k))
+			}
 		} else {
 			c.Fail("R4", site, comp[0].Pos(), "recursion driven by peer input is not bounded by a depth counter ("+w+"): arbitrarily deep array nesting (a few megabytes of \"*1\\r\\n\") overflows the goroutine stack, which is fatal for the whole process and cannot be recovered")
 		}
@@ -1386,9 +1392,9 @@ func (p *Prog) returnMinLen(g *ssa.Function) (int64, bool) {
 			}
 			return 0
 		}
-		k := witness(bc.zoneAt(b), r.Results[0])
+		k := witness(bc.zoneAt(b), returnedValues(r)[0])
 		// a phi of slices: every incoming value under the conditions of its own edge
-		if ph, isPhi := r.Results[0].(*ssa.Phi); isPhi && k == 0 {
+		if ph, isPhi := returnedValues(r)[0].(*ssa.Phi); isPhi && k == 0 {
 			k = 1 << 30
 			// name every term first: definitional facts go to the base zone, which zoneAt copies
 			for i, e := range ph.Edges {
